@@ -128,13 +128,16 @@ func (h *HelloElemVersionBitmap) Header() *HelloElemHeader {
 	return &h.HelloElemHeader
 }
 
+// Len: header and bitmaps, padded to 64 bits as every hello element is (the element's
+// length field does not count the padding)
 func (h *HelloElemVersionBitmap) Len() (n uint16) {
 	n = h.HelloElemHeader.Len()
 	n += uint16(len(h.Bitmaps) * 4)
-	return
+	return (n + 7) / 8 * 8
 }
 
 func (h *HelloElemVersionBitmap) MarshalBinary() (data []byte, err error) {
+	h.Length = h.HelloElemHeader.Len() + uint16(len(h.Bitmaps)*4)
 	data = make([]byte, int(h.Len()))
 	bytes := make([]byte, 0)
 	next := 0
